@@ -378,7 +378,7 @@ def check_use_pairing(idx: Index, rep: Report) -> None:
         if len(rem_loops) != 1 or len(add_loops) != 1:
             raise AnalysisError(f"{f.fq}: expected one remove_use loop and one add_use loop")
         rl, al = rem_loops[0], add_loops[0]
-        if unparse(rl.iter) != f"zip(self.{vals}, self.{uses})" or unparse(rl.body[0]) != f"{unparse(rl.target.elts[0])}.remove_use({unparse(rl.target.elts[1])})":  # type: ignore[attr-defined]
+        if resolved_text(cfg, rl.iter, cfg.node_of(rl)) != f"zip(self.{vals}, self.{uses})" or unparse(rl.body[0]) != f"{unparse(rl.target.elts[0])}.remove_use({unparse(rl.target.elts[1])})":  # type: ignore[attr-defined]
             bad.append(("remove-pairing", f"old uses are not removed pairwise from zip(self.{vals}, self.{uses})"))
         # new uses: the i-th new value gets Use(self, i), and that same object is what the uses tuple holds at i.
         # Two accepted constructions (anything else is undecided, not a violation):
@@ -402,7 +402,24 @@ def check_use_pairing(idx: Index, rep: Report) -> None:
                 form, new_name, uses_name = "A", unparse(it.args[1]), unparse(it.args[0])
             else:
                 bad.append(("add-pairing", f"`{unparse(ad)}` does not add the use paired with the value by zip({', '.join(unparse(a_) for a_ in it.args[:2])})"))
+            recycled = False
             if form == "A":
+                # A': uses = <prefix of the old uses>[: len(new)] + tuple(Use(self, i) for i in range(len(prefix), len(new)))
+                udefs = [v_ for _, v_ in reaching_defs(cfg, uses_name, cfg.node_of(al)) if v_ is not None]
+                if len(udefs) == 1 and isinstance(udefs[0], ast.BinOp) and isinstance(udefs[0].op, ast.Add):
+                    from ..polyform import canon as pcanon
+
+                    L, R = udefs[0].left, udefs[0].right
+                    Lr = resolved_text(cfg, L, cfg.node_of(al))
+                    g = R.args[0] if isinstance(R, ast.Call) and unparse(R.func) == "tuple" and len(R.args) == 1 and isinstance(R.args[0], ast.GeneratorExp) else None
+                    if g is not None and re.fullmatch(rf"self\.{uses}\[:len\((?:\w+\()?{re.escape(new_name)}\)?\)\]", Lr) and len(g.generators) == 1 and not g.generators[0].ifs and isinstance(g.generators[0].iter, ast.Call) and unparse(g.generators[0].iter.func) == "range" and len(g.generators[0].iter.args) in (1, 2) and unparse(g.elt) == f"Use(self, {unparse(g.generators[0].target)})":
+                        recycled = True
+                        ra_ = g.generators[0].iter.args
+                        a_, b_ = (ast.Constant(value=0), ra_[0]) if len(ra_) == 1 else ra_
+                        a_t = resolved_text(cfg, a_, cfg.node_of(al)).replace(Lr, "KEPT")
+                        if pcanon(a_t) != pcanon("len(KEPT)") or unparse(b_) != f"len({new_name})":
+                            bad.append(("new-uses", f"the uses appended behind the recycled prefix `{unparse(L)}` are numbered `range({unparse(a_)}, {unparse(b_)})`; they sit at positions len({unparse(L)}) .. len({new_name}) - 1, so an appended entry gets a Use whose index is not its position"))
+            if form == "A" and not recycled:
                 dsc = describe_set(f.node, cfg, ast.Name(id=uses_name, ctx=ast.Load()), cfg.node_of(al))
                 okA = not dsc.unknown and not dsc.bases and len(dsc.adds) == 1 and len(dsc.adds[0].iters) == 1 and dsc.adds[0].iters[0][1] == f"range(len({new_name}))" and element_shape(dsc.adds[0]) == "Use(self, _x)" and not dsc.adds[0].facts
                 if dsc.unknown:
